@@ -44,6 +44,8 @@ class World:
         self.other_mod = self.other.new_module(api.m.Amplifier, name="foreign")
         self.other_pat = api.Pattern(name="foreignpat", tracks=1, lines=1)
         self.other.attach_pattern(self.other_pat)
+        self.other_clone = api.PatternClone(source=0)
+        self.other.attach_pattern(self.other_clone)
         self.history = []
 
     def fresh_name(self):
@@ -84,7 +86,8 @@ class World:
             return False
         # the foreign project is never affected
         if self.other.modules[1] is not self.other_mod or self.other_mod.parent is not self.other or self.other_mod.index != 1 \
-                or len(self.other.modules) != 2 or self.other.patterns != [self.other_pat] or self.other_pat.project is not self.other:
+                or len(self.other.modules) != 2 or self.other.patterns != [self.other_pat, self.other_clone] \
+                or self.other_pat.project is not self.other or self.other_clone.project is not self.other:
             res.violation(f"C14:foreign-changed:{op[0]}", f"after {op}: the other project/module/pattern was modified", case)
             return False
         res.seen("occupancy_patterns", "".join("x" if s else "." for s in self.slots))
@@ -199,7 +202,7 @@ class World:
 
     def op_attach_pattern(self):
         from rv.errors import PatternOwnershipError
-        kind = self.rng.choice(("pattern", "pattern", "clone", "none", "foreign", "dup", "iadd"))
+        kind = self.rng.choice(("pattern", "pattern", "clone", "none", "foreign", "foreign-clone", "dup", "iadd"))
         if kind in ("pattern", "iadd"):
             name = self.fresh_name()
             pat = self.api.Pattern(name=name, tracks=self.rng.randint(1, 4), lines=self.rng.randint(1, 8))
@@ -217,14 +220,18 @@ class World:
         elif kind == "none":
             self.p.attach_pattern(None)
             self.patterns.append(None)
-        elif kind == "foreign":
+        elif kind in ("foreign", "foreign-clone"):
             self.res.count("foreign_refusals")
+            victim = self.other_pat if kind == "foreign" else self.other_clone
             try:
-                self.p.attach_pattern(self.other_pat)
+                if self.rng.random() < 0.5:
+                    self.p.attach_pattern(victim)
+                else:
+                    self.p += victim
             except PatternOwnershipError:
                 pass
             else:
-                self.res.violation("C14:foreign-pattern-accepted", "a pattern owned by another project was accepted", {"history": self.history[-40:]})
+                self.res.violation(f"C14:{kind}-pattern-accepted", f"a {'pattern clone' if kind == 'foreign-clone' else 'pattern'} owned by another project was accepted", {"history": self.history[-40:]})
                 return False
         elif kind == "dup":
             live = [q for q in self.p.patterns if q is not None]
